@@ -176,7 +176,7 @@ def binary_rules() -> List[Any]:
 
 def ternary_rules(units: Optional[List[Any]] = None) -> List[Any]:
     if units is None:
-        units = [_id("a"), _id("b"), _id("c"), _id("c", True), _score("b"),
+        units = [_id("a"), _id("b"), _id("c"), _id("c", True),
                  _min(2, ["a", "c"]), _cds(["and", [_id("b"), _id("c")]])]
     out = []
     for x, y, z in itertools.permutations(units, 3):
@@ -210,7 +210,7 @@ def rule_texts(tier: str) -> List[str]:
     texts: List[str] = []
     pools = [single_atoms(), binary_rules(), ternary_rules()]
     if tier == "thorough":
-        more = [_id("a"), _id("b", True), _id("c"), _score("a"), _score("c", True),
+        more = [_id("a"), _id("b", True), _id("c"), _score("a"), _score("b"), _score("c", True),
                 _min(1, ["b", "c"]), _min(2, ["a", "b"], True),
                 _cds(["or", [_id("a"), _id("c")]]), _cds(["and", [_id("a"), _id("c", True)]], True),
                 _cds(["and", [_id("a"), _grp(["or", [_id("b"), _id("c")]])]])]
@@ -467,8 +467,8 @@ def boundary_layout(genes: Sequence[Any], ring: int, cutoff: int) -> bool:
 
 FAMILIES = {
     # family: (layout function, genes, caps per rule class (single, binary, ternary) quick / thorough)
-    "w2": (layouts2, 2, (512, 16, 6), (4096, 256, 24)),
-    "w3": (layouts3, 3, (64, 8, 4), (2048, 96, 12)),
+    "w2": (layouts2, 2, (256, 12, 4), (4096, 256, 24)),
+    "w3": (layouts3, 3, (48, 6, 3), (2048, 96, 12)),
     "w4": (layouts4, 4, (0, 0, 0), (512, 32, 8)),
     "sp": (layouts_special, 2, (64, 8, 8), (512, 64, 64)),
 }
